@@ -147,18 +147,21 @@ fn run_file(path: &str, arena: &Arena) -> ExitCode {
 }
 
 fn run_stdin(arena: &Arena) -> ExitCode {
-    let mut reader = io::stdin().lock();
     let mut buf = Vec::new_in(arena);
     let mut chunk = [0u8; 8192];
 
-    loop {
-        match reader.read(&mut chunk) {
-            Ok(0) => break,
-            Ok(n) => buf.extend_from_slice(&chunk[..n]),
-            Err(err) if err.kind() == io::ErrorKind::Interrupted => {}
-            Err(err) => {
-                print_error!("Failed to read from stdin: {err}");
-                return ExitCode::FAILURE;
+    {
+        // The lock is given back before the script runs: `read_line` takes it too.
+        let mut reader = io::stdin().lock();
+        loop {
+            match reader.read(&mut chunk) {
+                Ok(0) => break,
+                Ok(n) => buf.extend_from_slice(&chunk[..n]),
+                Err(err) if err.kind() == io::ErrorKind::Interrupted => {}
+                Err(err) => {
+                    print_error!("Failed to read from stdin: {err}");
+                    return ExitCode::FAILURE;
+                }
             }
         }
     }
